@@ -532,8 +532,19 @@ def run(ctx):
 
 
 MANIFEST = {
-    'level_text': 'placeholder',
-    'level_note': 'placeholder',
+    'level_text': 'Machine-checked proofs (Coq, no axioms) over a model of the read-only queries written branch for branch from the '
+                  'repaired sources: for ALL object maps and documents (no well-formedness hypothesis) dereference / get_object / '
+                  'get_dictionary / catalog, get_page_contents / get_page_content, get_page_resources / get_page_fonts, '
+                  'get_named_destinations, get_outlines, get_toc and the graph part of extract_text return a value or an error '
+                  'within an explicit fuel bound polynomial in the number of objects and their nesting height (measure arguments over '
+                  'DEREF_LIMIT, the visited set, the reference budgets); size_hint never promises more than it yields nor less than '
+                  'the iteration budget allows and the allocation request of get_pages is <= |objects| + 1; the unrepaired walkers '
+                  '(QueryV0) are proved to panic or to diverge for every fuel on 3-5 object witnesses.  Limits and the shapes of the '
+                  'limit tests are re-read from the Rust source on every run; the model is tied to the implementation by isolated-'
+                  'worker differential runs (values, error class, panic, hang, abort) on typed-chaos graphs.',
+    'level_note': 'partial: ' + PARTIAL + '  Eight defects found and repaired (known_findings.json, fix commits de22aab ab38d4c '
+                  'bcaf31f a720232 88fe34a 89b7063 8ad6800 e154731).  Trusted: Coq kernel; translator (4 constants, font tables, 11 shape '
+                  'anchors); hand-written model tied by correspondence; extraction/OCaml driver; Rust harness with process isolation.',
     'technique': 'Coq proof (fuel/measure arguments over budgets, limits and visited sets) + isolated-worker differential correspondence',
     'design_ref': 'DESIGN.md 6 C13',
 }
